@@ -304,6 +304,14 @@ def wiring(F, R):
     for f in F.funcs:
         if backend_of(f) not in ('back', 'back11') or not f.blocks or f.cls != 'state_machine': continue
         sp = f.d.get('sp', '')
+        # who may wire: constructors only.  Assignment reaches nested submachines through the same operator=, so wiring there makes
+        # every nested machine its own container (exit points forward to the submachine itself, which then reports no_transition)
+        if not (sp and 'ctor' in sp):
+            for i, n in f.calls():
+                if n.get('n') == 'fill_states' and n.get('pc') == 'state_machine':
+                    R.seen(f); R.anchor('wiring-outside-ctor:' + backend_of(f))
+                    R.ob('C07.wiring', False, {'func': f.q})
+                    R.find('C07.wiring', f, 'wiring-outside-constructor', '%s wires the substates to this machine (fill_states): assignment and copying reach nested submachines through the same function, so each nested machine overrides the wiring its container established (exit-point forwarders, containment mark)' % f.n, where=f.at(i))
         if not (sp and 'ctor' in sp) and f.n not in ('operator=', 'do_copy', 'set_states'): continue
         order = f.linear_nodes()
         fills = [i for i in order if f.nodes[i] and f.nodes[i]['k'] == 'call' and f.nodes[i].get('n') == 'fill_states']
@@ -412,6 +420,8 @@ def gate_kind(F, n):
     if nm == 'is_flag_active':
         ta = F.targs(n.get('ta')) or []
         t = str(ta[0]) if ta else ''
+        # blocking is "some region's active state carries the flag": the any-region (OR) query, never the all-regions one
+        if len(ta) > 1 and not str(ta[1]).split('::')[-1].lower().startswith('flag_or'): return 'all-regions-query:' + str(ta[1]).split('::')[-1]
         if 'TerminateFlag' in t: return 'terminate'
         if 'EndInterruptFlag' in t: return 'endint'
         if 'InterruptedFlag' in t: return 'interrupted'
@@ -555,7 +565,7 @@ def catch(F, R):
                 noexc = any('bool_<true>' in F.strs[p['t']] for p in f.d['params'])
             else:
                 m = Model(F).machine_of(F.class_type(f))
-                noexc = bool(m and m.fe_rec and 'no_exception_thrown' in m.fe_rec['tds'])
+                noexc = bool(m and m.fe_rec and m.M.declares_option(m.fe, 'no_exception_thrown', through_configuration=False))
             R.ob('C12.catch', noexc, {'func': f.q, 'no_exception_configuration': noexc})
             if not noexc: R.find('C12.catch', f, 'no-try', 'the event is dispatched outside any try block although exceptions are not configured off')
             continue
@@ -1057,6 +1067,27 @@ def copymp11(F, R):
             ok = deleg and assigns
             R.ob('C15.ctor', ok, {'func': f.q, 'delegates_to_default_ctor': deleg, 'assigns': assigns})
             if not ok: R.find('C15.ctor', f, 'shape', 'copy/move constructor must construct a wired machine (default constructor) and then assign the state; delegating=%s assigns=%s' % (deleg, assigns))
+    # (c2) backmp11 assignment: compiler-generated (member-wise), or every data member is assigned (the root pointer is a non_propagating
+    #      wrapper and may be skipped) together with the front-end base
+    for f in F.funcs:
+        if backend_of(f) == 'backmp11' and f.cls == 'state_machine_base' and f.d.get('sp') in ('copy_assign', 'move_assign'):
+            R.seen(f); R.anchor('mp11-assign:' + f.d['sp'])
+            if f.d.get('defaulted'):
+                R.ob('C15.fields', True, {'func': f.q, 'defaulted': True}); continue
+            if not f.blocks: continue
+            rec = F.rec_by_type(F.class_type(f))
+            fields = [fd['n'] for fd in rec['fields'] if not strip_cvref(F.strs[fd['t']]).startswith('boost::msm::backmp11::detail::non_propagating<')] if rec else []
+            w = set()
+            for n in f.nodes:
+                if not n: continue
+                if n['k'] == 'asg' and f.base_member(n['lhs']): w.add(f.base_member(n['lhs']))
+                if n['k'] == 'call' and n.get('op') == '=':
+                    o = n.get('obj') or (n['args'][0] if n.get('args') else None)
+                    if o and f.base_member(o): w.add(f.base_member(o))
+            base = any(n['k'] == 'call' and n.get('op') == '=' and n.get('pc') not in (None,) and (n.get('obj') and (f.nodes[n['obj']] or {}).get('k') in ('this', 'icast', 'un')) for i, n in f.calls())
+            missing = [x for x in fields if x not in w]
+            R.ob('C15.fields', not missing, {'func': f.q, 'fields': fields, 'assigned': sorted(w)})
+            if missing: R.find('C15.fields', f, 'missing:' + ','.join(missing), 'the hand-written %s of the backmp11 machine does not assign data member(s) %s (the copy constructor and nested machines are copied through it)' % ('copy assignment' if f.d['sp'] == 'copy_assign' else 'move assignment', missing))
     # (d) back / back11: a callable that captures the machine's address is stored in a member that do_copy copies
     for f in F.funcs:
         if backend_of(f) not in ('back', 'back11') or not f.blocks: continue
@@ -1518,3 +1549,169 @@ def visitorder(F, R):
             g = bad_lams[0] if bad_lams else f
             R.find('C03.visit-order', g, 'state-major', 'the active-state visit must iterate the regions outermost (region order is what the entry visitor counts); here %s' %
                    ('the per-state closure loops over m_active_state_ids, so states are reported in state-id order' if bad_lams else 'the regions are walked backwards' if backwards else 'visit() has no region loop enclosing the per-state closure'))
+
+@rule('serstates')
+def serstates(F, R):
+    """C16.fields (back / back11): serialize() applies serialize_state to every element of the substate list."""
+    for f in F.funcs:
+        be = backend_of(f)
+        if be not in ('back', 'back11') or not f.blocks: continue
+        if f.cls == 'state_machine' and f.n == 'serialize':
+            R.seen(f); R.anchor('serialize-walk:' + be)
+            ok = False
+            for i, n in f.calls():
+                if n.get('n') == 'for_each' and n.get('args'):
+                    a0 = f.nodes[n['args'][0]]
+                    while a0 and a0['k'] in ('icast', 'cast'): a0 = f.nodes[a0['e']]
+                    if a0 and a0['k'] == 'mem' and a0['n'] == 'm_substate_list':
+                        from rules_order import dependency_closure
+                        for a in n['args'][1:]:
+                            for d in dependency_closure(f, a):
+                                x = f.nodes[d]
+                                if x and 't' in x and 'serialize_state<' in F.strs[x['t']]: ok = True
+            R.ob('C16.fields', ok, {'func': f.q, 'walks_substates': ok})
+            if not ok: R.find('C16.fields', f, 'no-walk', 'serialize does not apply serialize_state to every element of m_substate_list')
+
+@rule('functors')
+def functors(F, R):
+    """C14.functors: the composing functors of the functor front-end mean what their names say.  Or_/And_/Not_::operator() return
+    T1(args) || T2(args), T1(args) && T2(args), !T1(args) with the operands in template-argument order and the call arguments being the
+    parameters in order; ActionSequence_::operator() hands the Sequence itself (declared order) to one mpl::for_each with a Call/Call2
+    built from the parameters in order; Call/Call2 store parameter i in field i and invoke FCT()(fields in order) exactly once."""
+    def unc(f, i):
+        n = f.nodes[i] if i else None
+        while n and n['k'] in ('icast', 'cast', 'paren', 'tmp'): n = f.nodes[n['e']]
+        return n
+    def guard_call(f, i, T, pnames):
+        """node i is T()(params in order)"""
+        n = unc(f, i)
+        if not (n and n['k'] == 'call' and n.get('op') == '()' and n.get('obj')): return False
+        o = unc(f, n['obj'])
+        if not (o and strip_cvref(F.strs[o['t']]) == strip_cvref(T)): return False
+        got = []
+        for a in n['args']:
+            x = unc(f, a)
+            got.append(x['n'] if x and x['k'] == 'ref' and x.get('dk') == 'param' else None)
+        return got == pnames
+    for f in F.funcs:
+        if not f.q.startswith('boost::msm::front::') or not f.blocks or f.file not in ('boost/msm/front/operator.hpp', 'boost/msm/front/functor_row.hpp'): continue
+        pn = [p['n'] for p in f.d.get('params', [])]
+        if f.cls in ('Or_', 'And_', 'Not_') and f.n == 'operator()':
+            a = [str(x) for x in (f.cls_args() or [])]
+            rets = [n for n in f.nodes if n and n['k'] == 'ret' and n.get('e')]
+            R.seen(f); R.anchor('functor:' + f.cls)
+            ok = len(rets) == 1
+            if ok:
+                e = unc(f, rets[0]['e'])
+                if f.cls == 'Not_': ok = bool(e) and e['k'] == 'un' and e['op'] == '!' and guard_call(f, e['e'], a[0], pn)
+                else: ok = bool(e) and e['k'] == 'bin' and e['op'] == ('||' if f.cls == 'Or_' else '&&') and guard_call(f, e['lhs'], a[0], pn) and guard_call(f, e['rhs'], a[1], pn)
+            R.ob('C14.functors', ok, {'func': f.q, 'args': [Facts.short(x, 40) for x in a]})
+            if not ok: R.find('C14.functors', f, 'logic', '%s::operator() does not return %s over its template arguments in order, called with the parameters in order' % (f.cls, {'Or_': 'T1(..) || T2(..)', 'And_': 'T1(..) && T2(..)', 'Not_': '!T1(..)'}[f.cls]))
+        elif f.cls == 'ActionSequence_' and f.n == 'operator()':
+            a = [str(x) for x in (f.cls_args() or [])]
+            fe = [(i, n) for i, n in f.calls() if n.get('n') == 'for_each']
+            R.seen(f); R.anchor('functor:ActionSequence_')
+            ok = len(fe) == 1 and not [n for i, n in f.calls() if n['k'] == 'call' and n.get('n') != 'for_each']
+            if ok:
+                i, n = fe[0]
+                t0 = n.get('ta', [{}])[0]
+                ok = isinstance(t0, dict) and 't' in t0 and strip_cvref(F.strs[t0['t']]) == strip_cvref(a[0])
+                c = unc(f, n['args'][0]) if n.get('args') else None
+                if ok: ok = bool(c) and c['k'] == 'ctor' and c.get('pc') in ('Call', 'Call2') and [(unc(f, x) or {}).get('n') for x in c['args']] == pn
+            R.ob('C14.functors', ok, {'func': f.q})
+            if not ok: R.find('C14.functors', f, 'sequence', 'ActionSequence_::operator() must run mpl::for_each over the declared Sequence itself (written order) with a Call/Call2 built from its parameters in order')
+        elif f.cls in ('Call', 'Call2') and 'ActionSequence_' in f.classes:
+            rec = F.rec_by_type(F.class_type(f))
+            fields = [fd['n'] for fd in rec['fields']] if rec else []
+            if f.n == f.cls and f.d.get('sp') in ('copy_ctor', 'move_ctor'): continue
+            if f.n == f.cls:     # constructor: parameter i -> field i
+                inits = [(n['member'], (unc(f, n['e']) or {}).get('n')) for n in f.nodes if n and n['k'] == 'init']
+                R.seen(f); R.anchor('functor:Call-ctor')
+                ok = [m for m, p in inits] == fields and [p for m, p in inits] == pn
+                R.ob('C14.functors', ok, {'func': f.q, 'inits': inits})
+                if not ok: R.find('C14.functors', f, 'call-ctor', '%s stores its constructor arguments as %s (fields %s)' % (f.cls, inits, fields))
+            elif f.n == 'operator()':
+                calls = [(i, n) for i, n in f.calls() if n.get('op') == '()']
+                R.seen(f); R.anchor('functor:Call-op')
+                ok = len(calls) == 1
+                if ok:
+                    i, n = calls[0]
+                    pt = f.param_types()
+                    h, wa, r = parse_type(strip_cvref(pt[0])) if pt else (None, None, None)
+                    o = unc(f, n.get('obj'))
+                    ok = bool(wa) and bool(o) and strip_cvref(F.strs[o['t']]) == strip_cvref(wa[0]) and [(unc(f, x) or {}).get('n') for x in n['args']] == fields
+                R.ob('C14.functors', ok, {'func': f.q})
+                if not ok: R.find('C14.functors', f, 'call-op', '%s::operator() must invoke the wrapped functor exactly once with the stored arguments in order %s' % (f.cls, fields))
+
+@rule('ctrlblock')
+def ctrlblock(F, R):
+    """C20.block (backmp11): the per-type control blocks of the event pool element agree with the storage arm they are used for.
+    heap block (create_control_block<T,false>): copy = `new T(copy of *src)` stored through dest, delete = `delete (T*)`, never
+    marked inline; inline block of a non-trivially-copyable T: size = sizeof(T), inline mark set, copy / move = placement-new of T
+    into dest from a copy / an rvalue of *src, destroy = explicit destructor call (no delete), present exactly when T is not trivially
+    destructible; inline block of a trivially copyable T: {null, null, null, sizeof(T), true}."""
+    def unc(f, i):
+        n = f.nodes[i] if i else None
+        while n and n['k'] in ('icast', 'cast', 'paren'): n = f.nodes[n['e']]
+        return n
+    def lam_of(f, i):
+        """closure body functions assigned (through the conversion to a function pointer) by expression i"""
+        from rules_order import dependency_closure
+        for d in dependency_closure(f, i):
+            m = f.nodes[d]
+            if m and m['k'] == 'lambda':
+                return [g for g in F.funcs_of_lambda(m['lck']) if g.n == 'operator()' and g.blocks]
+        return []
+    for f in F.funcs:
+        if backend_of(f) != 'backmp11' or f.n != 'operator()' or not f.blocks or len(f.d['ctx']) < 2: continue
+        owner = f.d['ctx'][-2]
+        if owner.get('c') not in ('create_control_block', 'inline_control_bock') or 'lck' not in f.d['ctx'][-1]: continue
+        a = owner.get('a') or []
+        if len(a) < 2 or not isinstance(a[0], dict) and not isinstance(a[0], str): continue
+        T = strip_cvref(F.strs[a[0]['t']]) if isinstance(a[0], dict) and 't' in a[0] else strip_cvref(str(a[0]))
+        heap = owner['c'] == 'create_control_block'
+        R.seen(f); R.anchor('ctrl-block:' + ('heap' if heap else 'inline'))
+        asg = {}
+        for i, n in enumerate(f.nodes):
+            if n and n['k'] == 'asg':
+                l = unc(f, n['lhs'])
+                if l and l['k'] == 'mem' and l.get('oc') == 'control_block': asg[l['n']] = n['rhs']
+        why = []
+        def body(field):
+            return lam_of(f, asg[field]) if field in asg else []
+        def has(g, pred): return any(n and pred(n) for n in g.nodes)
+        tyT = lambda n: strip_cvref(F.strs[n['ty']]) == T if 'ty' in n else False
+        if heap:
+            if 'is_inline' in asg and f.eval_const(asg['is_inline']) not in (0, None): why.append('heap block marked inline')
+            cp = body('copy_construct_fn'); dl = body('delete_fn')
+            if not cp or not all(has(g, lambda n: n['k'] == 'new' and not n['place'] and tyT(n) and (unc(g, n['init']) or {}).get('copy')) and
+                                 has(g, lambda n: n['k'] == 'asg' and (unc(g, n['rhs']) or {}).get('k') == 'new') for g in cp):
+                why.append('copy function does not store `new T(copy of the source object)` through dest (a shared pointer is deleted twice)')
+            if not dl or not all(has(g, lambda n: n['k'] == 'delete') for g in dl): why.append('delete function does not delete the object')
+        else:
+            sz = unc(f, asg.get('size'))
+            if not (sz and sz['k'] == 'sizeof' and sz.get('tk') == 0 and tyT(sz)): why.append('size is not sizeof(T)')
+            if f.eval_const(asg.get('is_inline')) != 1: why.append('inline block not marked inline (get() would read the buffer as a pointer)')
+            cp = body('copy_construct_fn'); mv = body('move_construct_fn'); dl = body('delete_fn')
+            pnew = lambda kind: (lambda g: has(g, lambda n: n['k'] == 'new' and n['place'] and tyT(n) and bool((unc(g, n['init']) or {}).get(kind))))
+            if not cp or not all(pnew('copy')(g) for g in cp): why.append('copy function is not a placement-new copy of T into dest')
+            if mv and not all(pnew('move')(g) or pnew('copy')(g) for g in mv): why.append('move function is not a placement-new of T into dest')
+            triv_d = None; triv_m = None
+            for n in f.nodes:
+                if n and n['k'] == 'ref' and n.get('n') == 'is_trivially_destructible_v' and 'v' in n: triv_d = bool(n['v'])
+                if n and n['k'] == 'ref' and n.get('n') == 'is_trivially_move_constructible_v' and 'v' in n: triv_m = bool(n['v'])
+            if triv_d is False and not dl: why.append('T is not trivially destructible but the block has no destroy function')
+            if triv_m is False and not mv: why.append('T is not trivially move constructible but the block has no move function (memcpy would be used)')
+            if dl and not all(has(g, lambda n: n['k'] == 'call' and str(n.get('n', '')).startswith('~')) and not has(g, lambda n: n['k'] == 'delete') for g in dl):
+                why.append('destroy function of an inline object must be an explicit destructor call, never delete')
+        R.ob('C20.block', not why, {'type': Facts.short(T, 60), 'arm': 'heap' if heap else 'inline', 'fields_set': sorted(asg)})
+        if why: R.find('C20.block', f, 'heap' if heap else 'inline', 'control block for %s: %s' % (Facts.short(T, 60), '; '.join(why)), instance=Facts.short(T, 120))
+    for r in F.records:
+        if r['loc'].startswith('boost/msm/backmp11/') and r['n'] == 'inline_control_bock' and r.get('sinit', {}).get('instance'):
+            a = r.get('a') or []
+            T = strip_cvref(F.strs[a[0]['t']]) if a and isinstance(a[0], dict) and 't' in a[0] else None
+            il = r['sinit']['instance']
+            R.anchor('ctrl-block:inline-trivial')
+            ok = len(il) == 5 and il[:3] == ['null', 'null', 'null'] and isinstance(il[3], dict) and il[3].get('tk') == 0 and strip_cvref(F.strs[il[3]['sizeof']]) == T and il[4] == 1
+            R.ob('C20.block', ok, {'type': Facts.short(str(T), 60), 'arm': 'inline-trivial', 'initialiser': [x if not isinstance(x, dict) else 'sizeof(%s)' % Facts.short(F.strs[x['sizeof']], 40) for x in il]})
+            if not ok: R.find('C20.block', ('boost/msm/backmp11/detail/basic_polymorphic.hpp', r['q']), 'inline-trivial', 'control block of trivially copyable %s must be {null, null, null, sizeof(T), true}; found %s' % (Facts.short(str(T), 60), il), where=r['loc'])
